@@ -2,13 +2,11 @@
 From Coq Require Import ZArith Reals Lra Psatz List Bool Lia String.
 From PW Require Import Num NumR Vec Mat NpList Result.
 From PW.model Require Import M_rodrigues M_affine M_rotation M_composite M_coordmgr.
+From PW.model Require Export M_affine_spec M_composite_spec M_coordmgr_spec.
 From PW.proofs Require Import P_vec P_mat P_nplist P_affine P_rotation P_composite.
 Import ListNotations.
 Local Open Scope R_scope.
 
-Definition cm_Inv (st : cm_state (F:=R)) : Prop :=
-  Inv (cm_tr st) /\ Forall (fun ni => (snd ni <= List.length (cm_tr st))%nat) (cm_tags st).
-Definition cm_op_ok (o : cm_op R) : Prop := match o with CTransform t => op_ok t | _ => True end.
 
 (* ---------------- invariant over all histories ---------------- *)
 Lemma cm_step_tr st o : exists added, cm_tr (fst (cm_step ROps st o)) = cm_tr st ++ added.
@@ -51,8 +49,6 @@ Proof.
   destruct (String.eqb m n); [intros H; injection H as <-; exact Hk | exact IH].
 Qed.
 
-(* ---------------- do_transform between two positions ---------------- *)
-Definition slice (tr : cstate (F:=R)) (a b : nat) : cstate (F:=R) := firstn (b - a) (skipn a tr).
 
 Lemma convert_spec tr i j pts : Inv tr -> (i <= List.length tr)%nat -> (j <= List.length tr)%nat ->
   convert ROps tr i j pts =
@@ -145,8 +141,6 @@ Proof. intros H. cbn [tag_lookup]. destruct (String.eqb_spec n m); [contradictio
 Lemma tag_lookup_same n i tags : tag_lookup n ((n, i) :: tags) = Some i.
 Proof. cbn [tag_lookup]. rewrite String.eqb_refl. reflexivity. Qed.
 
-(* one further call: the transform list grows at the end, existing tags other than a re-tagged name keep their position *)
-Definition not_retag (a : string) (o : cm_op R) : Prop := match o with CTagAs n => n <> a | _ => True end.
 Lemma cm_step_lookup st o a : not_retag a o ->
   tag_lookup a (cm_tags (fst (cm_step ROps st o))) = tag_lookup a (cm_tags st).
 Proof.
